@@ -653,3 +653,17 @@ impl<K: Copy + Ord + Default, V: Clone + Default> MapTree<K, V> {
         }
     }
 }
+
+#[cfg(ishape_rust_itree_verif)]
+impl<K: Copy + Default, V: Clone + Default> MapTree<K, V> {
+    /// Verification hook (read-only): root, free list and per-slot (parent, left, right, is_red, key, value).
+    pub fn verif_snapshot(&self) -> (u32, Vec<u32>, Vec<(u32, u32, u32, bool, K, V)>) {
+        let nodes = self
+            .store
+            .buffer
+            .iter()
+            .map(|n| (n.parent, n.left, n.right, n.color == Color::Red, n.entity.key, n.entity.val.clone()))
+            .collect();
+        (self.root, self.store.unused.clone(), nodes)
+    }
+}
